@@ -12,7 +12,7 @@ if [ ! -d "$work/parsers/tree-sitter-python" ]; then
   cp -r "$src" "$work/parsers/tree-sitter-python"
 fi
 printf '{"parser-directories":["%s"]}\n' "$work/parsers" > "$work/ts-config/config.json"
-(cd /repo && CARGO_NET_OFFLINE=true cargo build --offline --features cli --target-dir "$work/cli-target" 2>&1 | grep -v conda | grep -E "^(error|warning: unused)" -A6 | head -40) || true
+(cd "${VERIF_REPO:-/repo}" && CARGO_NET_OFFLINE=true cargo build --offline --features cli --target-dir "$work/cli-target" 2>&1 | grep -v conda | grep -E "^(error|warning: unused)" -A6 | head -40) || true
 test -x "$work/cli-target/debug/tree-sitter-graph" || { echo "CLI build failed" >&2; exit 2; }
 # first run compiles the grammar into ts-lib
 echo "pass" > "$work/c19/warm.py"; echo '(module) @m { node @m.n }' > "$work/c19/warm.tsg"
